@@ -10,6 +10,8 @@ import (
 	"testing"
 	"testing/synctest"
 	"time"
+
+	"github.com/basecamp/kamal-proxy/internal/server"
 )
 
 // deploy-side hook points whose order defines the gaps a request step can fall into
@@ -27,6 +29,9 @@ type c02Scenario struct {
 	ArrStep   time.Duration   `json:"arrival_step"`
 	ReqDelays []time.Duration `json:"req_delays"` // candidate d1/d2 values
 	ProbeIv   time.Duration   `json:"probe_interval"`
+	// TLSSub: the service under test is a sub-path service (/x, /z, /slow) on a host whose root
+	// service has TLS; it inherits the TLS settings, and every client request arrives over TLS
+	TLSSub bool `json:"tls_subpath,omitempty"`
 }
 
 const c02Delta = 10*time.Millisecond + OffHook
@@ -69,6 +74,11 @@ func c02Gen(rng *rand.Rand, idx int, thorough bool) c02Scenario {
 		sc.Delays = uni(1)
 		sc.ReqDelays = rd(9)
 		return sc
+	case 4: // the canonical grid for a sub-path service under a TLS root, requests over TLS
+		sc.TLSSub = true
+		sc.Delays = uni(1)
+		sc.ReqDelays = rd(6)
+		return sc
 	}
 	sc.NOld, sc.NNew = 1+rng.IntN(3), 1+rng.IntN(3)
 	if rng.IntN(3) == 0 {
@@ -88,6 +98,7 @@ func c02Gen(rng *rand.Rand, idx int, thorough bool) c02Scenario {
 	sc.ReqDelays = rd(3 + rng.IntN(6))
 	sc.ArrStep = time.Duration(3+rng.IntN(8)) * time.Millisecond
 	sc.ProbeIv = time.Duration(5+rng.IntN(20)) * time.Millisecond
+	sc.TLSSub = rng.IntN(5) == 0
 	return sc
 }
 
@@ -106,8 +117,19 @@ func TestC02(t *testing.T) {
 }
 
 func c02Run(t *testing.T, run *Run, sc c02Scenario) {
-	w := NewWorld(t, WorldOpt{})
+	w := NewWorld(t, WorldOpt{TLSListener: sc.TLSSub})
 	defer w.Close()
+	so := DefSO
+	if sc.TLSSub {
+		fix := Fixtures()
+		w.AddTarget("root-t0:80", nil)
+		rootSO := server.ServiceOptions{Hosts: []string{"c02.example"}, TLSEnabled: true, TLSRedirect: true, TLSCertificatePath: fix + "/cert.pem", TLSPrivateKeyPath: fix + "/key.pem"}
+		if c := w.Deploy("root", []string{"root-t0:80"}, rootSO, DefTO, 5*time.Second, time.Second); c.Err != "" {
+			run.Inconclusive("setup deploy of the TLS root service failed: %s", c.Err)
+			return
+		}
+		so = server.ServiceOptions{TLSRedirect: true, Hosts: []string{"c02.example"}, PathPrefixes: []string{"/x", "/z", "/slow"}}
+	}
 	to := DefTO
 	to.HealthCheckConfig.Interval = sc.ProbeIv
 	to.HealthCheckConfig.Timeout = 5 * time.Second
@@ -124,7 +146,7 @@ func c02Run(t *testing.T, run *Run, sc c02Scenario) {
 	}
 	cookie := ""
 	active0 := gen(0, sc.NOld, "g")
-	if c := w.Deploy(svc, active0, DefSO, to, 5*time.Second, drainTO); c.Err != "" {
+	if c := w.Deploy(svc, active0, so, to, 5*time.Second, drainTO); c.Err != "" {
 		run.Inconclusive("setup deploy failed: %s", c.Err)
 		return
 	}
@@ -172,7 +194,7 @@ func c02Run(t *testing.T, run *Run, sc c02Scenario) {
 				d1 := bj - arr + time.Duration(k)*span/6
 				metas[id] = meta{arr: arr - bj, d1: d1, dep: j, stalled: true}
 				w.SetReqDelay(id, "route.resolved", d1)
-				r := Req{ID: id, Host: "c02.example", Path: "/z"}
+				r := Req{ID: id, Host: "c02.example", Path: "/z", TLS: sc.TLSSub, SNI: "c02.example"}
 				if cookie != "" {
 					r.Hdr = [][2]string{{"Cookie", cookie}}
 				}
@@ -192,10 +214,10 @@ func c02Run(t *testing.T, run *Run, sc c02Scenario) {
 		for s := 0; s < sc.Slow; s++ {
 			id := fmt.Sprintf("s%d-%d", dep, s)
 			metas[id] = meta{dep: dep, slow: true}
-			r := Req{ID: id, Host: "c02.example", Path: "/slow", Lat: sc.SlowLat}
+			r := Req{ID: id, Host: "c02.example", Path: "/slow", Lat: sc.SlowLat, TLS: sc.TLSSub, SNI: "c02.example"}
 			if s%2 == 1 {
 				// a streamed (chunked, no Content-Length) response whose second half is still to come
-				r = Req{ID: id, Host: "c02.example", Path: "/slow", Mode: "stream", Gap: sc.SlowLat}
+				r = Req{ID: id, Host: "c02.example", Path: "/slow", Mode: "stream", Gap: sc.SlowLat, TLS: sc.TLSSub, SNI: "c02.example"}
 			}
 			if cookie != "" {
 				r.Hdr = [][2]string{{"Cookie", cookie}}
@@ -217,7 +239,7 @@ func c02Run(t *testing.T, run *Run, sc c02Scenario) {
 					if d2 > 0 {
 						w.SetReqDelay(id, "service.gate.passed", d2)
 					}
-					r := Req{ID: id, Host: "c02.example", Path: "/x"}
+					r := Req{ID: id, Host: "c02.example", Path: "/x", TLS: sc.TLSSub, SNI: "c02.example"}
 					if cookie != "" {
 						r.Hdr = [][2]string{{"Cookie", cookie}}
 					}
@@ -230,7 +252,7 @@ func c02Run(t *testing.T, run *Run, sc c02Scenario) {
 			if sc.Slot == "rollout" {
 				c = w.RolloutDeploy(svc, newT, 5*time.Second, drainTO)
 			} else {
-				c = w.Deploy(svc, newT, DefSO, to, 5*time.Second, drainTO)
+				c = w.Deploy(svc, newT, so, to, 5*time.Second, drainTO)
 			}
 			w.mu.Lock()
 			cmds = append(cmds, c)
@@ -348,7 +370,7 @@ func c02Run(t *testing.T, run *Run, sc c02Scenario) {
 			if ok1 && ok2 && ok3 {
 				a, b, cc := pos(m.dep, tr), pos(m.dep, tg), pos(m.dep, tc)
 				if a != 0 || cc != len(c02Points) {
-					run.Class(fmt.Sprintf("%s:%d-%d-%d", sc.Slot, a, b, cc))
+					run.Class(fmt.Sprintf("%s:tls=%v:%d-%d-%d", sc.Slot, sc.TLSSub, a, b, cc))
 				}
 				sig = fmt.Sprintf("resolved@%d,gate@%d,claim@%d", a, b, cc)
 			}
